@@ -5,6 +5,7 @@ CONSTANTS
   MaxSteps = 6
   FixPrune = TRUE
   FixRestart = TRUE
+  PruneOutsideLock = FALSE
   Hist = FALSE
   Atomic = FALSE
   Ops <- Ops_all
